@@ -1586,3 +1586,77 @@ def shrink_struct(schemas, pred, budget=40, deadline=None):
                 progress = True
                 break
     return cur
+
+
+# ------------------------------------------------------------------ delta_objects stub cases
+# line: D;<pc>;<olds>;<news>;<x:y:s[:sub/sub]...>;<renames y:x>;<guidance c,c|y:x|d,d or ->
+# similarity levels 0..6 = 0.0 0.3 0.6 0.61 0.8 0.95 1.0  (0.6 is the alter threshold)
+
+def gen_dobj(rnd, maxn=6):
+    n_old = rnd.randint(0, maxn)
+    n_new = rnd.randint(0, maxn)
+    pool = list(range(1, 2 * maxn + 3))
+    olds = rnd.sample(pool, n_old)
+    share = [o for o in olds if rnd.random() < rnd.choice([0.0, 0.3, 0.6, 0.9])]
+    rest = [p for p in pool if p not in olds]
+    news = share + rnd.sample(rest, min(len(rest), max(0, n_new - len(share))))
+    rnd.shuffle(news)
+    mode = rnd.random()
+    ents = []
+    for x in news:
+        for y in olds:
+            if (x in olds or y in news) and x != y:
+                continue            # never compared by the real code
+            if x == y:
+                s = rnd.choice([6, 6, 6, 5, 4, 3, 2, 1, 0])
+            elif mode < 0.3:
+                s = rnd.choice([0, 1, 2])
+            elif mode < 0.6:
+                s = rnd.choice([3, 4, 5, 4, 4])          # many ties
+            else:
+                s = rnd.choice([0, 1, 2, 3, 4, 5, 6])
+            e = f'{x}:{y}:{s}'
+            if rnd.random() < 0.3:
+                e += ':' + '/'.join(rnd.choice(['n', '3', '4', '5', '6', '1']) for _ in range(rnd.randint(1, 3)))
+            ents.append(e)
+    rens = []
+    if rnd.random() < 0.25 and olds:
+        for y in rnd.sample(olds, min(len(olds), rnd.randint(1, 2))):
+            cand = [x for x in news if x not in olds] or news
+            if cand:
+                x = rnd.choice(cand)
+                if all(x != r[1] for r in rens):
+                    rens.append((y, x))
+        if rnd.random() < 0.2:
+            rens.append((99, rnd.choice(news) if news else 98))      # a rename of another class's object
+    gd = '-'
+    if rnd.random() < 0.25:
+        bc = [x for x in news if rnd.random() < 0.2]
+        bd = [y for y in olds if rnd.random() < 0.2]
+        ba = [(y, x) for x in news for y in olds if rnd.random() < 0.1]
+        gd = ','.join(map(str, bc)) + '|' + ','.join(f'{y}:{x}' for y, x in ba) + '|' + ','.join(map(str, bd))
+    pc = rnd.choice(['n', 'n', '1', 'h'])
+    return ';'.join(['D', pc, ','.join(map(str, olds)), ','.join(map(str, news)), ','.join(ents),
+                     ','.join(f'{y}:{x}' for y, x in rens), gd])
+
+
+def dobj_exhaustive():
+    """all cases with olds ⊆ {1,2}, news ⊆ {2,3} non-empty sides, similarity levels {0,3,6} on every
+    compared pair, no guidance/renames, pc in {n,1}"""
+    import itertools
+    out = []
+    for olds in ([1], [2], [1, 2], [2, 1]):
+        for news in ([2], [3], [2, 3], [3, 2]):
+            pairs = [(x, y) for x in news for y in olds if x == y or (x not in olds and y not in news)]
+            for lv in itertools.product((0, 2, 3, 6), repeat=len(pairs)):
+                for pc in ('n', '1'):
+                    ents = ','.join(f'{x}:{y}:{s}' for (x, y), s in zip(pairs, lv))
+                    out.append(';'.join(['D', pc, ','.join(map(str, olds)), ','.join(map(str, news)), ents, '', '-']))
+    return out
+
+
+def dobj_nontrivial(line):
+    f = line.split(';')
+    olds = f[2].split(',') if f[2] else []
+    news = f[3].split(',') if f[3] else []
+    return len(olds) >= 2 and len(news) >= 2 and len([e for e in f[4].split(',') if e and e.split(':')[2] in '345']) >= 2
